@@ -312,6 +312,8 @@ theorem audit_writeView {S : State} (hI : BufInv S) {r : Rep} (f : List UInt8 ‚Ü
     simp only [hx]
     refine ‚ü®bufLe_setI_same hx (fun _ => hl) rfl rfl, ?_‚ü©
     intro e he
+    split at he
+    case isFalse => cases he
     simp only [List.mem_singleton] at he; subst he
     refine ‚ü®hI.fresh o x hx, Nat.le_add_right _ _, ?_‚ü©
     intro j y hy hyl hyb
